@@ -342,6 +342,23 @@ def nested(depth, shape='plain'):
 DEPTH_SHAPES = ('plain', 'prolog_pi', 'prolog_comments', 'inner_comments', 'inner_pi', 'trailing_comment')
 
 
+def refused_settings(res, xmlschema, limits, name, configured):
+    """Settings the module refuses must leave the configured limit in force: the sweeps that follow run after them."""
+    for bad in (0, -3, 'many', None, 2.5):
+        res.count('limit_setting:refused_values_tried')
+        try:
+            setattr(limits, name, bad)
+        except (xmlschema.XMLSchemaException, TypeError, ValueError):
+            pass
+        else:
+            res.count(f'limit_setting:accepted:{type(bad).__name__}')
+            setattr(limits, name, configured)
+            continue
+        if getattr(limits, name) != configured:
+            res.violation(f'refused-limit-setting-changed-the-limit:{name}', {'limit': name, 'value': repr(bad)},
+                          f'{name} = {bad!r} was refused but the module now reports {getattr(limits, name)!r} instead of {configured}')
+
+
 def run_depth(spec, res):
     """Documents of depth limit-1, limit, limit+1 under MAX_XML_DEPTH = limit (process-global setting)."""
     xmlschema = env.activate_repo()
@@ -350,6 +367,7 @@ def run_depth(spec, res):
     sent = Sentinel(xmlschema, res)
     L = spec['limit']
     limits.MAX_XML_DEPTH = L
+    refused_settings(res, xmlschema, limits, 'MAX_XML_DEPTH', L)
     schema = xmlschema.XMLSchema10(DEEP_XSD)
     for depth in sorted({1, 2, L - 1, L, L + 1, L + 5} | ({300, 450, 520, 700} if L >= 1000 else set())):
         if depth < 1:
@@ -399,6 +417,7 @@ def run_elements(spec, res):
     sent = Sentinel(xmlschema, res)
     L = spec['limit']
     limits.MAX_XML_ELEMENTS = L
+    refused_settings(res, xmlschema, limits, 'MAX_XML_ELEMENTS', L)
     for n in (1, L - 1, L, L + 1, L + 7):
         if n < 1:
             continue
